@@ -113,6 +113,11 @@ class StaticFileHandler(RequestHandler):
         if not self._is_safe_path(file_path):
             return GeminiResponse(status=StatusCode.NOT_FOUND.value, meta="Not found")
 
+        # A path with a trailing slash names a directory, never a regular file
+        # (access rules for "<file>/" must not decide about "<file>")
+        if requested_path.endswith("/") and not file_path.is_dir():
+            return GeminiResponse(status=StatusCode.NOT_FOUND.value, meta="Not found")
+
         # If path is a directory, try to serve an index file or generate listing
         if file_path.is_dir():
             # Try each index filename in order (per Gemini best practices)
